@@ -153,6 +153,8 @@ func pickFields(h http.Header, vary []string) map[string][]string {
 var repoHeuristic = map[int]bool{200: true, 203: true, 206: true, 301: true, 304: true, 404: true, 405: true, 410: true, 414: true, 501: true, 308: true}
 var rfcHeuristic = map[int]bool{200: true, 203: true, 204: true, 206: true, 300: true, 301: true, 308: true, 404: true, 405: true, 410: true, 414: true, 501: true}
 
+var repoUnderstood = map[int]bool{200: true, 203: true, 301: true, 304: true, 404: true, 405: true, 410: true, 414: true, 501: true, 308: true}
+
 // registered status codes: anything else is "not understood" by every list
 var registeredStatus = func() map[int]bool {
 	m := map[int]bool{}
@@ -190,8 +192,10 @@ func MustNotStore(c *sim.UpCall) string {
 		return "status-304"
 	case rep.FailBody:
 		return "body-failed"
-	case resCC.Has("must-understand") && !registeredStatus[rep.Status]:
-		return "must-understand-unknown-status"
+	case resCC.Has("must-understand") && !repoUnderstood[rep.Status] && !rfcHeuristic[rep.Status]:
+		// "understood" = what this cache documents as understood (its
+		// isStatusUnderstood list) or what RFC 9111 defines as cacheable by default
+		return "must-understand-status-not-understood"
 	}
 	explicit := resCC.Has("max-age") || resCC.Has("s-maxage") || resCC.Has("public") || resCC.Has("private") || len(rep.Header.Values("Expires")) > 0
 	if !explicit && !repoHeuristic[rep.Status] && !rfcHeuristic[rep.Status] {
